@@ -16,7 +16,7 @@ from vlib import urlref
 from vlib.urlgrammar import UNRESERVED, IDN_LABELS, puny
 
 CONTROL_CHARS = ["\x00", "\x0a", "\x1f", "\x7f", "\x85", "\x9f", "\x0d", "\x09", "\x01"]
-WHITESPACE = [" ", "  ", "\t", "\n", " \t ", "\r\n"]
+WHITESPACE = [" ", "  ", "\t", "\n", " \t ", "\r\n", "\u00a0", "\u2003", "\u3000", "\u2028", " \u00a0 "]      # str.strip() is Unicode-aware: so is "surrounding whitespace"
 
 _PUNY = {puny(l): l for l in IDN_LABELS}
 
